@@ -267,3 +267,7 @@ def expected(m):
         exp[("athessian",)] = Approx(m["hess"], atol=0.0, rtol=0.5e-8)
         exp[("atmasses",)] = Approx(m["masses"] * units.amu, atol=0.5e-5 * units.amu, rtol=units.RTOL)
     return exp
+
+
+# Classes that are generated but NOT asserted by C03 (triage decisions, see DESIGN.md section 7): class -> reason
+NOT_ASSERTED = {'wide_coords': 'F15.10 layout inferred from one corpus file only', 'energy_only': 'omission (values not loaded), not a wrong value', 'gradient_only': 'omission', 'hessian_only': 'omission', 'point_group': 'g_rot string: type question outside C03', 'cn1_symmetry': 'low confidence that GAMESS punches this form', 'dollar_col2': 'medium confidence only'}
